@@ -979,3 +979,167 @@ func (c *Ctx) ruleRoundRecompute() {
 		}
 	}
 }
+
+// R-LOSTUPDATE: a struct copied out of shared storage and modified through the copy must be written back.
+func (c *Ctx) ruleLostUpdate(rule, dir string) {
+	sp := c.ssaPkg(dir)
+	if sp == nil {
+		return
+	}
+	c.doc(rule, "for every local struct variable initialised by copying an element of shared storage (a slice/array element, a map value, a field reached through a pointer): a store to one of the copy's fields is followed by a write-back of the copy (a store of its value to non-local storage, a call or return taking it, or its address escaping) or by a later read of that field — otherwise the update (e.g. a slot counter decrement) is silently lost")
+	n := 0
+	for _, f := range allFuncs(c, sp) {
+		eachInstr(f, func(_ *ssa.BasicBlock, _ int, in ssa.Instruction) {
+			al, ok := in.(*ssa.Alloc)
+			if !ok {
+				return
+			}
+			if _, isStruct := al.Type().Underlying().(*types.Pointer).Elem().Underlying().(*types.Struct); !isStruct {
+				return
+			}
+			fromShared := false
+			var fieldStores []*ssa.Store
+			escaped := false
+			var laterReads []ssa.Instruction
+			var walkRefs func(v ssa.Value, isField bool)
+			walkRefs = func(v ssa.Value, isField bool) {
+				for _, r := range *v.Referrers() {
+					switch x := r.(type) {
+					case *ssa.Store:
+						if x.Addr == v {
+							if isField {
+								fieldStores = append(fieldStores, x)
+							} else if u, ok := x.Val.(*ssa.UnOp); ok && u.Op == token.MUL {
+								switch u.X.(type) {
+								case *ssa.IndexAddr, *ssa.FieldAddr:
+									fromShared = true
+								}
+							} else if _, ok := x.Val.(*ssa.Lookup); ok {
+								fromShared = true
+							} else if ex, ok := x.Val.(*ssa.Extract); ok {
+								if _, ok := ex.Tuple.(*ssa.Lookup); ok {
+									fromShared = true
+								}
+							}
+						} else {
+							escaped = true // the address itself is stored somewhere
+						}
+					case *ssa.FieldAddr:
+						walkRefs(x, true)
+					case *ssa.IndexAddr:
+						walkRefs(x, true)
+					case *ssa.UnOp:
+						if x.Op == token.MUL {
+							if isField {
+								laterReads = append(laterReads, x)
+							} else {
+								// whole-value load: written back / passed on if it has any use
+								if len(*x.Referrers()) > 0 {
+									escaped = true
+								}
+							}
+						}
+					case *ssa.DebugRef:
+					default:
+						escaped = true // call argument, closure binding, return, phi, ...
+					}
+				}
+			}
+			walkRefs(al, false)
+			if !fromShared || len(fieldStores) == 0 {
+				return
+			}
+			for _, st := range fieldStores {
+				n++
+				ok := escaped
+				if !ok {
+					for _, rd := range laterReads {
+						if instrReaches(st, rd) {
+							ok = true
+						}
+					}
+				}
+				name := al.Comment
+				c.ob(rule, fmt.Sprintf("%s:copy-of-shared-struct:field-store#%d", relName(f.String()), n), st.Pos(), ok,
+					fmt.Sprintf("%s modifies a field of `%s`, a local COPY of an element of shared storage, and never writes the copy back or reads the field again: the update is lost", shortFn(f), name))
+			}
+		})
+	}
+	c.ob(rule, "scan", token.NoPos, true, fmt.Sprintf("%d field stores through local copies of shared structs examined", n))
+}
+
+// R-DIRPRUNE: a by-hash response keeps the end of the chain the request starts at, in the requested direction.
+func (c *Ctx) ruleDirPrune() {
+	f := c.fn(syncDir, "(*SyncService).handleChainByHash")
+	msp := c.ssaPkg(msgDir)
+	if f == nil || msp == nil {
+		return
+	}
+	c.doc("R-DIRPRUNE", "handleChainByHash, executed abstractly for both directions: BlockState.Range yields the chain oldest-first; every slices.Reverse flips the orientation; a pruning re-slice must drop the end AWAY from the requested start block (ascending request: start = oldest; descending request: start = newest) given the orientation at that point; the final orientation is oldest-first for ascending and newest-first for descending")
+	asc, ok1 := constOf(msp, "Ascending")
+	desc, ok2 := constOf(msp, "Descending")
+	if !ok1 || !ok2 {
+		c.unresolved("messages.Ascending/Descending")
+		return
+	}
+	var dirParam ssa.Value
+	for _, p := range f.Params {
+		if strings.HasSuffix(p.Type().String(), "SyncDirection") {
+			dirParam = p
+		}
+	}
+	if dirParam == nil {
+		c.unresolved("direction parameter of handleChainByHash")
+		return
+	}
+	for _, tc := range []struct {
+		name string
+		val  int64
+	}{{"ascending", asc}, {"descending", desc}} {
+		env := &cmpEnv{extern: func(v ssa.Value) (any, bool) {
+			if stripConv(v) == dirParam {
+				return tc.val, true
+			}
+			return nil, false
+		}}
+		vis := explore(f, env)
+		var revs, cuts []ssa.Instruction
+		for in := range vis {
+			switch x := in.(type) {
+			case *ssa.Call:
+				if strings.Contains(calleeName(&x.Call), "slices.Reverse") {
+					revs = append(revs, in)
+				}
+			case *ssa.Slice:
+				if strings.HasSuffix(x.X.Type().String(), "common.Hash") && (x.Low != nil || x.High != nil) {
+					cuts = append(cuts, in)
+				}
+			}
+		}
+		wantFlips := 0
+		if tc.name == "descending" {
+			wantFlips = 1
+		}
+		c.ob("R-DIRPRUNE", "handleChainByHash:"+tc.name+":final-orientation", f.Pos(), len(revs)%2 == wantFlips,
+			fmt.Sprintf("%d reversal(s) execute for a %s request; the response must be oldest-first for ascending and newest-first for descending", len(revs), tc.name))
+		for i, cut := range cuts {
+			sl := cut.(*ssa.Slice)
+			flips := 0
+			for _, r := range revs {
+				if instrReaches(r, cut) {
+					flips++
+				}
+			}
+			startAtFront := (tc.name == "ascending") == (flips%2 == 0) // is the requested start block at index 0 here?
+			dropsFront, dropsBack := sl.Low != nil, sl.High != nil
+			ok := dropsFront != dropsBack && dropsBack == startAtFront
+			c.ob("R-DIRPRUNE", fmt.Sprintf("handleChainByHash:%s:prune#%d", tc.name, i+1), cut.Pos(), ok,
+				fmt.Sprintf("for a %s request the list is %s at this point, so the requested start block is at the %s; the re-slice drops the %s: the response would not start at the requested block",
+					tc.name, map[bool]string{true: "oldest-first", false: "newest-first"}[flips%2 == 0], map[bool]string{true: "front", false: "back"}[startAtFront],
+					map[bool]string{true: "front", false: "back"}[dropsFront]))
+		}
+		if len(cuts) == 0 {
+			c.ob("R-DIRPRUNE", "handleChainByHash:"+tc.name+":prune", f.Pos(), false, "no pruning re-slice executes for this direction: the response can exceed the requested maximum (or the anchor changed)")
+		}
+	}
+}
